@@ -8,6 +8,8 @@ pub mod c04;
 pub mod c05;
 pub mod c06;
 pub mod c07;
+pub mod c08;
+pub mod c18;
 
 pub fn dispatch(args: &Args) -> i32 {
     match args.prop.as_str() {
@@ -18,6 +20,8 @@ pub fn dispatch(args: &Args) -> i32 {
         "C05" => c05::run(args),
         "C06" => c06::run(args),
         "C07" => c07::run(args),
+        "C08" => c08::run(args),
+        "C18" => c18::run(args),
         p => {
             eprintln!("agv: no check for property {p}");
             2
